@@ -185,6 +185,23 @@ _add("C20", S+"Recover", ["orphan-companion-only", "only-complete-partials-are-r
 _add("C06", S+"Receive", ["companion-removed-only-when-finalized"])
 _add("C06", "stage.newLocalCompanion")
 
+# round 3 (fourth batch of seeded changes)
+for _p in ("C10", "C11"):
+    _add(_p, "(*queue.Tagged).Push")
+_add("C10", B+"recover", ["resumed-file-keeps-its-announced-predecessor", "failed-is-resent-whole", "notfound-is-requeued-whole"])
+for _p in ("C06", "C20"):
+    _add(_p, S+"pathToName")
+_add("C05", S+"Recover", ["delivery-record-reaches-back-the-retention", "not-ready-for-duration"])
+for _f in ("(*cache.JSON).Persist", "(*cache.JSON).add", "(*cache.JSON).Reset", "(*cache.JSON).Done", "(*cache.JSON).Remove"):
+    _add("C07", _f)
+_add("C17", "(*cache.JSON).Persist")
+_add("C17", "(*store.Local).ShouldIgnore")
+for _f in ("(*log.FileIO).Parse$1", "(*log.FileIO).Parse", "(*log.rollingFile).getCurrPath"):
+    _add("C18", _f)
+_add("C15", "stage.New")
+_add("C14", S+"isFileReady", ["predecessor-name-never-reaches-the-file-system"])
+_add("C02", B+"startRetry", ["gone-files-only", "changed-not-resent"])
+
 os.makedirs(os.path.join(V, "props"), exist_ok=True)
 for pid, p in P.items():
     json.dump(p, open(os.path.join(V, "props", pid + ".json"), "w"), indent=1)
